@@ -98,6 +98,10 @@ Definition set_owner {bstate value grad} (P : params bstate value grad) (o : nat
   mkParams (p_dv P) (p_ds P) (p_upd P) (p_apply P) (p_cast P) (p_world P) (p_gs P) (p_nb P) o (p_nbytes P)
            (p_global_skip P) (p_eager_meshes P).
 
+Definition set_global_skip {bstate value grad} (P : params bstate value grad) (b : bool) : params bstate value grad :=
+  mkParams (p_dv P) (p_ds P) (p_upd P) (p_apply P) (p_cast P) (p_world P) (p_gs P) (p_nb P) (p_owner P) (p_nbytes P)
+           b (p_eager_meshes P).
+
 Section Dist.
   Context {bstate value grad : Type}.
   Variable P : params bstate value grad.
